@@ -153,7 +153,7 @@ def body(ctx, cfg):
     R = 0
     rs = []
     for j in range(cfg['calls']):
-        r = ctx.int('R', 1, T + 2 * tau)
+        r = ctx.int('R', 1, T if forced2 else T + 2 * tau)
         rs.append(r)
         R = R + r
         e.run_for(r, force_complete=(forced2 or j == cfg['calls'] - 1))
